@@ -196,6 +196,7 @@ func (w *World) Exec(o *Op) error {
 			a := w.Toks[o.T].Alias(chainName(o.C))
 			b := w.xs(o.C).Keeper.GetOutgoingTxBatch(c.Ctx, a.Contract, nonce)
 			o.Timeout = int64(b.BatchTimeout)
+			w.liveBatch = append(w.liveBatch, liveBatch{C: o.C, T: o.T, Nonce: nonce, Timeout: b.BatchTimeout})
 		}
 		return err
 	case "BridgeCallMsg":
